@@ -286,10 +286,10 @@ func checkC07(c *Ctx) {
 		var out ParseOut
 		select {
 		case out = <-done:
-		case <-time.After(60 * time.Second):
+		case <-time.After(180 * time.Second):
 			simdjson.VerifEventHook = nil
 			runtime.GOMAXPROCS(oldProcs)
-			c.Violate("deadlock", "Parse did not return within 60 s under a forced schedule", "deadlock",
+			c.Violate("deadlock", "Parse did not return within 180 s under a forced schedule", "deadlock",
 				map[string]interface{}{"doc_hex": fmt.Sprintf("%x", doc), "mode": mode, "gomaxprocs": procs})
 			return
 		}
